@@ -46,6 +46,9 @@ def run(rep, index):
     writer_pipes = writer_side(rep, index)
     reader_side(rep, index, roles, writer_pipes)
     numeric_mirror(rep, index, roles)
+    from . import c06, c09
+    c06.include(rep, "C04.W3 add_K-appends-the-K-byte-prefix-of-the-encoding", "C09", lambda sub: c09.numeric(sub, index),
+                keep=lambda o: o.rule.startswith(("C09.N5", "C09.N6")))
     codec_links(rep, index)
     write_histories(rep, index)
     rep.undecided.append("strings come back as their cp1252 image with '?' for unencodable characters: semantics of the codec "
